@@ -8,8 +8,8 @@ TRACE = (MODULE, "C05_trace.cfg")
 REG = dict(category="exploration",
     text="Five specifications executed by TLC and bound to the INTERNAL routines of the library (the harness includes secp256k1.c). (1) FieldApi.tla transcribes the "
     "contract of src/field.h as a register machine (value mod p, magnitude, normalized); C05_Field.tla lets TLC explore every operation sequence to a depth bound "
-    "from an edge start pool (0, 1, p-1, p, 2^256-1, all-ones limb patterns of the 5x52 and 10x26 layouts ...) and every labelled transition is replayed through "
-    "secp256k1_fe_* behind its shortest prefix: value, return value and -- on VERIFY builds -- the materialised magnitude/normalized fields must equal the spec after "
+    "from an edge start pool (0, 1, p-1, p, 2^256-1, all-ones limb patterns of the 5x52 and 10x26 layouts ...) and, with the (magnitude, normalized) pairs as VIEW, the "
+    "WHOLE magnitude calculus 0..32 without depth bound; every labelled transition is replayed through secp256k1_fe_* behind the path TLC found: value, return value and -- on VERIFY builds -- the materialised magnitude/normalized fields must equal the spec after "
     "every step. (2) ScalarApi.tla: every scalar routine as arithmetic mod n incl. split_lambda (post-condition and documented algorithm), split_128, mul_shift_var, "
     "cadd_bit, get_bits over pools with n-neighbours, 2^128 neighbours, lambda, limb patterns and the lambda-split bound scalars. (3) GroupLaw.tla: every add/double/"
     "conversion routine x {generic, P+P, P+(-P), P+inf, inf+Q, inf+inf, equal-x, the beta-degenerate case} x Jacobian z rescalings x maximal magnitudes against the "
@@ -436,7 +436,10 @@ def run(chk):
     stage1 = [{"e": "KEcmult", "in": {"fn": "gen", "a": b32(edge(rng, SC_EDGE))}} for _ in range(24)]
     _, ev1 = run_robust(chk, stage1, "std", "driver inputs (first stage)")
     pts = [e["out"]["r"] for e in ev1 if e["out"]["r"][0] == 0]
-    if len(pts) < 4: raise Infra("driver: too few points from the first stage")
+    if len(pts) < 4:
+        if not chk.violations: raise Infra("driver: too few points from the first stage")
+        chk.notes.append("T direction skipped: the first driver stage produced no points (the implementation already failed the replays above)")
+        return finish(chk, variants, fstat, sst, str_, gen, {})
     common = sc_driver(rng, nsc) + group_driver(rng, pts, ngl) + ecmult_driver(rng, pts, nem) + hash_driver(rng, nh) + fe_driver(rng, nfe, False)
     events = list(ev1); seen = set(); per_variant = {}
     for v in variants:
@@ -476,14 +479,18 @@ def run(chk):
     # events of two variants differ legitimately only in KFeSeq records (mag/nrm presence, get_bounds values); anything else is a cross-configuration difference
     # that the specification will reject for at least one of the two
     chk.validate(events, MODULE, "C05_trace.cfg", "driver", timeout=6000)
+    return finish(chk, variants, fstat, sst, str_, gen, per_variant)
+
+
+def finish(chk, variants, fstat, sst, str_, gen, per_variant):
     return chk.finish(LEVEL,
         "model: TLC explores the field register machine (C05_Field.tla) and the SHA-256 stream machine (C05_Sha.tla) completely within their bounds and checks the "
         "design-level invariants (well-formed magnitudes, algebraic post-conditions, digest = one-shot hash, block counts); G: every labelled transition of both "
-        "machines behind its shortest prefix, and every boundary record of C05_Kernel.tla (scalars, group law, scalar multiplication, hashing), replayed on every "
+        "machines behind a concrete prefix, and every boundary record of C05_Kernel.tla (scalars, group law, scalar multiplication, hashing), replayed on every "
         "build variant with the same expected bytes; T: seeded random / edge-biased calls recorded on every variant and decided by TLC. distinct_nontrivial counts "
         "distinct (routine, operation, result class) triples.",
         ["operands are pools + seeded random values, not all 2^256 (exploration)", "VERIFY builds abort on internal contract violations: an abort is reported as a violation",
-         "header errata E1/E2 (fe_half) follow the VERIFY wrappers, see notes/C05.md", "get_bounds values are implementation-defined and adopted from the observation"],
+         "header errata E1/E2 (fe_half) and E3 (fe_equal) follow the VERIFY wrappers; finding F2 (10x26 normalisation of maximal magnitude-32 limbs) is probed and reported as KNOWN-FINDING, see notes/C05.md", "get_bounds values are implementation-defined and adopted from the observation"],
         {"build_variants": variants, "field_machine": fstat, "sha_machine": {"states": sst, "transitions": str_}, "generated_records": len(gen),
          "driver_events_per_variant": per_variant})
 
